@@ -34,7 +34,7 @@ func verifConfig(n, k int) *verifCfg {
 		c.ids = append(c.ids, id)
 		c.origins = append(c.origins, origin)
 		c.keys = append(c.keys, key)
-		rt.RegisterKey(key)
+		rt.RegisterKey(key, origin)
 		c.logs[id] = LogInfo{SigV: &rt.Verifier{K: key, N: origin}, Origin: origin, Hasher: rfc6962.DefaultHasher}
 	}
 	for j := 0; j < k; j++ {
@@ -47,7 +47,7 @@ func verifConfig(n, k int) *verifCfg {
 			rt.Assume(wk != o)
 		}
 		c.wkeys = append(c.wkeys, wk)
-		rt.RegisterKey(wk)
+		rt.RegisterKey(wk, "witness")
 		c.signers = append(c.signers, &rt.Signer{K: wk, N: "witness"})
 	}
 	return c
